@@ -106,6 +106,7 @@ package tmstate
 //@ func StateMachine.advanceHeight
 //@   property C08 C10 C12
 //@   assumes height-fits-64-bits: rlc.H < MAXU64
+//@   requires[C08] finalization-stored-first: finalized(rlc.H)
 //@   requires m.smStore != nil && m.cm != nil && timerKnown(rlc) && rlc.PrevConsideredHashes != nil
 //@   ensures timer-inv: TimerInv(rlc) || Idle(rlc)
 //@   ensures fails-only-with-the-environment: !result ==> envfailed()
@@ -277,4 +278,49 @@ package tmstate
 //@   ensures timer-inv: TimerInv(rlc) || Idle(rlc)
 //@   ensures fails-only-with-the-environment: !result ==> envfailed()
 //@   ensures same-height-no-earlier-round: rlc.H == old(rlc.H) && rlc.R >= old(rlc.R)
+//@   modifies heap
+
+// ---- C08: the next height is entered only after the finalization of the current height is stored ----
+// FinInv: the round state holds a finalization (the driver's validators) only if that finalization is in the store.
+//@ define FinInv(rlc) = len(rlc.FinalizedValSet.Validators) > 0 ==> finalized(rlc.H)
+//@ iface tmstore.FinalizationStore.SaveFinalization(st, ctx, height, round, blockHash, valSet, appStateHash)
+//@   ensures result == nil ==> finalized(height)
+//@   ensures result != nil ==> envfailed() && finalized(height) == old(finalized(height))
+//@   modifies finalized(height)
+
+// The driver answers a finalize request for the height and round it was asked about, with a non-empty validator set
+// (the two BUG panics guard exactly this part of the driver's contract).
+//@ func StateMachine.handleFinalization
+//@   property C08 C12
+//@   requires driver-answers-the-request: len(resp.Validators) > 0 && resp.Height == rlc.H && resp.Round == rlc.R
+//@   requires TimerInv(rlc) && smReady(m, rlc) && m.fStore != nil && m.hashScheme != nil
+//@   ensures timer-inv-kept: TimerInv(rlc) || Idle(rlc)
+//@   ensures fails-only-with-the-environment: !result ==> envfailed()
+//@   ensures forward-only: rlc.H == old(rlc.H) + 1 || (rlc.H == old(rlc.H) && rlc.R == old(rlc.R))
+//@   ensures finalization-kept-with-the-store: result && rlc.H == old(rlc.H) ==> FinInv(rlc)
+//@   modifies heap
+
+// The mirror closes HeightCommitted when the height is decided network-wide: treated as the commit wait elapsing.
+//@ func StateMachine.handleHeightCommitted
+//@   property C08 C12 C09
+//@   option explicit-panics-under C09
+//@   requires TimerInv(rlc) && smReady(m, rlc) && FinInv(rlc)
+//@   ensures timer-inv-kept: TimerInv(rlc) || Idle(rlc)
+//@   ensures[C08,C09] fails-only-with-the-environment: !result ==> envfailed()
+//@   ensures[C08] forward-only: rlc.H == old(rlc.H) + 1 || (rlc.H == old(rlc.H) && rlc.R == old(rlc.R))
+//@   modifies heap
+
+// A jump-ahead from the mirror names a later round of the current height (guaranteed by the mirror's view manager, C11).
+//@ func StateMachine.handleJumpAhead
+//@   property C08 C12
+//@   requires mirror-jumps-forward-in-the-height: vrv.Height == rlc.H && vrv.Round > rlc.R
+//@   requires TimerInv(rlc) && smReady(m, rlc)
+//@   ensures timer-inv-kept: TimerInv(rlc) || Idle(rlc)
+//@   ensures later-round-of-the-height: rlc.H == old(rlc.H) && rlc.R > old(rlc.R)
+//@   modifies heap
+
+//@ func StateMachine.handleCommitWaitViewUpdate
+//@   property C08 C12
+//@   requires TimerInv(rlc) && rlc.VRV != nil && blockQuorum(vrv.VoteSummary)
+//@   ensures stays: TimerInv(rlc) && rlc.H == old(rlc.H) && rlc.R == old(rlc.R) && rlc.S == old(rlc.S)
 //@   modifies heap
